@@ -1,4 +1,5 @@
 import Snel.Lemmas.Parser
+import Snel.Lemmas.ParserRemember
 /-! Totality lemmas for C17: where a panic can come from. -/
 set_option linter.unusedSimpArgs false
 set_option linter.unusedVariables false
@@ -390,10 +391,16 @@ theorem grantLike_np (b : Bool) (k : String) (mk : List Str → List Str → Str
 theorem rememberP_np (S : Sites) (hS : S.NoPanic) (U : Uni) (input : Str) : rememberP S U input ≠ .panic := by
   unfold rememberP
   simp only []
-  repeat' split
-  all_goals first
-    | exact map_ne_panic (ofP_ne_panic (np_queryP S hS _ _))
-    | simp
+  generalize trimStartU U (List.drop 8 (trimU U input)) = remainder
+  apply ite_np (by simp)
+  cases hr : rfind " AS ".toList (remainder.map upper) with
+  | none => simp
+  | some idx =>
+    -- the two slices are on character boundaries: the panic branch is not taken
+    obtain ⟨i, h1, h2⟩ := remember_split remainder idx hr
+    simp only [h1, h2]
+    exact ite_np (by simp) (ite_np (by simp) (ite_np (by simp) (ite_np (by simp)
+      (map_ne_panic (ofP_ne_panic (np_queryP S hS _ _))))))
 
 theorem innerBatch_np (t : List Token) : innerBatch t ≠ .panic := by unfold innerBatch; split <;> simp
 
